@@ -82,15 +82,17 @@ def _empty_variants(path, leaf):
 
 def _samples(case):
     path, leaf = case["path"], case["leaf"]
-    base = {"a": _value(path, leaf), "b": 1, "c": "text"}
+    # siblings: a plain pseudo-typed field before and after the pathed one, an int and a plain string
+    base = {"p0": "9", "a": _value(path, leaf), "b": 1, "c": "text", "d": "5.5"}
     out = [base]
     if path.startswith("O"):
-        out.append({"b": 2, "c": "text2"} if case["variant"] == "absent" else {"a": None, "b": 2, "c": "text2"})
+        out.append({"p0": "8", "b": 2, "c": "text2", "d": "4.5"} if case["variant"] == "absent"
+                   else {"p0": "8", "a": None, "b": 2, "c": "text2", "d": "4.5"})
     if case["variant"] == "empty_containers":
         for v in _empty_variants(path, leaf):
-            out.append({"a": v, "b": 3, "c": "t3"})
+            out.append({"p0": "7", "a": v, "b": 3, "c": "t3", "d": "3.5"})
     if case["variant"] == "two_values":
-        out.append({"a": _value(path, leaf, second=True), "b": 4, "c": "t4"})
+        out.append({"p0": "6", "a": _value(path, leaf, second=True), "b": 4, "c": "t4", "d": "2.5"})
     return out
 
 
@@ -182,11 +184,12 @@ def execute(case):
                                         V("converted_value_wrong" if name == "a" else "other_field_modified",
                                           f"sample#{i} field {name}: annotation {h!r}, original {orig!r}, holds {got!r} ({type(got).__name__}), "
                                           f"expected {exp!r}")
-                                elif fw == "attrs" and name == "a" and case["path"] in ("", "O") and case["leaf"] in ("IntString", "FloatString"):
+                                elif fw == "attrs" and (name in ("p0", "d") or (name == "a" and case["path"] in ("", "O")
+                                                                                  and case["leaf"] in ("IntString", "FloatString"))):
                                     exp = _expect(h, orig)
                                     if not _same(got, exp, h):
                                         V("attrs_field_converter_wrong", f"sample#{i}: {orig!r} -> {got!r}, expected {exp!r}")
-                                elif not (fw == "attrs" and name == "a" and case["path"] in ("", "O")):
+                                elif not (fw == "attrs" and name == "a" and case["path"] in ("", "O")):  # known-finding leaves
                                     if not (type(got) is type(orig) and got == orig):
                                         V("field_modified_without_converters", f"sample#{i} field {name}: {orig!r} -> {got!r}")
                         obs.append(core.digest(text))
